@@ -84,6 +84,14 @@ def m_int(eng, st, args, kw, fr):
                 m = eng.find_class_attr(type(v), nm)
                 if m is not None and is_mp_function(m):
                     return eng.call(st, m, [v], {}, fr)
+    from .values import SStr
+    if args and isinstance(args[0], SStr):
+        from .strings import to_int
+        G.CUR = (eng, st.pc)
+        try:
+            return _ret(st, to_int(args[0]))
+        finally:
+            G.CUR = None
     from .strings import SHex
     if args and isinstance(args[0], SHex):
         base = args[1] if len(args) > 1 else kw.get('base', 10)
@@ -230,6 +238,9 @@ def m_bisect(eng, st, args, kw, fr):
 
 def m_len(eng, st, args, kw, fr):
     v = args[0]
+    from .values import SStr
+    if isinstance(v, SStr):
+        return _ret(st, len(v))
     if isinstance(v, Unknown):
         return eng.unknown_call(st, v, args, kw)
     from .engine import is_mp_object, is_mp_function
@@ -478,9 +489,14 @@ def m_list(eng, st, args, kw, fr):
 
 
 def m_str(eng, st, args, kw, fr):
+    from .values import SStr
+    if args and isinstance(args[0], SStr):
+        return _ret(st, args[0])
+    if args and isinstance(args[0], SBool):
+        raise Unsupported('str() of symbolic bool')
     if args and is_sym(args[0]):
         from .strings import SDec
-        return _ret(st, SDec.of(eng, st, args[0]))
+        return SDec.of(eng, st, args[0])
     if args and isinstance(args[0], Unknown):
         return _ret(st, '<unknown>')
     if has_sym(list(args)):
